@@ -64,54 +64,63 @@ def hash (c : Text) : Text := if startsWith ['#'] c then replaceFirst ['#'] [' '
 
 def slash2 (c : Text) : Text := replaceFirst "//".toList "  ".toList c
 
-/-- the per-grammar closures, keyed by the variable name of the parser in `language_parsers()` -/
-def normalise (parser : String) (kind : String) (c : Text) : Except String (Option Text) :=
-  let cStyle (commentKind : String) : Except String (Option Text) :=
-    if kind != commentKind then .ok none
-    else if startsWith "//".toList c then .ok (some (slash2 c)) else .ok (some (cBlock c))
-  let lineAndBlock (lk bk : String) : Except String (Option Text) :=
-    if kind == lk then .ok (some (slash2 c))
-    else if kind == bk then .ok (some (cBlock c))
-    else .ok none
-  let python : Except String (Option Text) := if kind == "comment" then .ok (some (hash c)) else .ok none
+/-- does this (grammar, node kind) go through the `<!-- … -->` normaliser (the only one with `expect`s left) -/
+def usesXml (parser kind : String) : Bool :=
+  (parser == "html_parser" && kind == "comment") || (parser == "xml_parser" && kind == "Comment") ||
+  (parser == "markdown_parser" && kind == "md_html_comment")
+
+/-- the per-grammar closures that cannot fail, keyed by the variable name of the parser in
+    `language_parsers()`; outer `none` = unknown parser, inner `none` = node is not a comment -/
+def normalisePure (parser : String) (kind : String) (c : Text) : Option (Option Text) :=
+  let cStyle (commentKind : String) : Option Text :=
+    if kind != commentKind then none
+    else if startsWith "//".toList c then some (slash2 c) else some (cBlock c)
+  let lineAndBlock (lk bk : String) : Option Text :=
+    if kind == lk then some (slash2 c)
+    else if kind == bk then some (cBlock c)
+    else none
+  let python : Option Text := if kind == "comment" then some (hash c) else none
   match parser with
   | "bash_parser" =>
-    if kind != "comment" then .ok none
-    else if startsWith "#!".toList c then .ok none
-    else .ok (some (replaceFirst ['#'] [' '] c))
-  | "c_parser" | "cpp_parser" | "go_parser" | "js_parser" | "typescript_parser" | "typescript_tsx_parser" => cStyle "comment"
+    some (if kind != "comment" then none
+      else if startsWith "#!".toList c then none
+      else some (replaceFirst ['#'] [' '] c))
+  | "c_parser" | "cpp_parser" | "go_parser" | "js_parser" | "typescript_parser" | "typescript_tsx_parser" => some (cStyle "comment")
   | "c_sharp_parser" =>
-    if kind != "comment" then .ok none
-    else if startsWith "///".toList c then .ok (some (replaceFirst "///".toList "   ".toList c))
-    else if startsWith "//".toList c then .ok (some (slash2 c))
-    else .ok (some (cBlock c))
-  | "css_parser" => if kind == "comment" then .ok (some (cBlock c)) else .ok none
-  | "html_parser" => if kind == "comment" then (xml c).map some else .ok none
-  | "xml_parser" => if kind == "Comment" then (xml c).map some else .ok none
-  | "java_parser" | "kotlin_parser" => lineAndBlock "line_comment" "block_comment"
-  | "swift_parser" => lineAndBlock "comment" "multiline_comment"
-  | "makefile_parser" | "python_parser" | "ruby_parser" | "toml_parser" | "yaml_parser" => python
+    some (if kind != "comment" then none
+      else if startsWith "///".toList c then some (replaceFirst "///".toList "   ".toList c)
+      else if startsWith "//".toList c then some (slash2 c)
+      else some (cBlock c))
+  | "css_parser" => some (if kind == "comment" then some (cBlock c) else none)
+  | "html_parser" | "xml_parser" => some none
+  | "java_parser" | "kotlin_parser" => some (lineAndBlock "line_comment" "block_comment")
+  | "swift_parser" => some (lineAndBlock "comment" "multiline_comment")
+  | "makefile_parser" | "python_parser" | "ruby_parser" | "toml_parser" | "yaml_parser" => some python
   | "php_parser" =>
-    if kind != "comment" then .ok none
-    else if startsWith "//".toList c then .ok (some (slash2 c))
-    else if startsWith "#".toList c then .ok (some (replaceFirst ['#'] [' '] c))
-    else .ok (some (cBlock c))
+    some (if kind != "comment" then none
+      else if startsWith "//".toList c then some (slash2 c)
+      else if startsWith "#".toList c then some (replaceFirst ['#'] [' '] c)
+      else some (cBlock c))
   | "rust_parser" =>
-    if kind == "line_comment" then
-      if startsWith "///".toList c then .ok (some (replaceFirst "///".toList "   ".toList c))
-      else if startsWith "//!".toList c then .ok (some (replaceFirst "//!".toList "   ".toList c))
-      else if startsWith "//".toList c then .ok (some (slash2 c))
-      else .ok (some c)
-    else if kind == "block_comment" then .ok (some (cBlock c))
-    else .ok none
+    some (if kind == "line_comment" then
+      if startsWith "///".toList c then some (replaceFirst "///".toList "   ".toList c)
+      else if startsWith "//!".toList c then some (replaceFirst "//!".toList "   ".toList c)
+      else if startsWith "//".toList c then some (slash2 c)
+      else some c
+    else if kind == "block_comment" then some (cBlock c)
+    else none)
   | "sql_parser" =>
-    if kind == "comment" then .ok (some (replaceFirst "--".toList "  ".toList c))
-    else if kind == "marginalia" then .ok (some (cBlock c))
-    else .ok none
-  | "markdown_parser" =>
-    if kind == "link_reference_definition" then .ok (mdLink c)
-    else if kind == "md_html_comment" then (xml c).map some
-    else .ok none
-  | _ => .error s!"unknown parser {parser}"
+    some (if kind == "comment" then some (replaceFirst "--".toList "  ".toList c)
+      else if kind == "marginalia" then some (cBlock c)
+      else none)
+  | "markdown_parser" => some (if kind == "link_reference_definition" then mdLink c else none)
+  | _ => none
+
+/-- the closure of a grammar applied to a node: `.error site` = a Rust panic site of the normaliser -/
+def normalise (parser : String) (kind : String) (c : Text) : Except String (Option Text) :=
+  if usesXml parser kind then (xml c).map some
+  else match normalisePure parser kind c with
+    | some r => .ok r
+    | none => .error s!"unknown parser {parser}"
 
 end Bw.Comment
